@@ -28,7 +28,8 @@ RULE = ("small datasets (3 names stored, flat/deep x gzip on/off); for each of s
         "numbered by a fault-free instrumented run and the operation is re-run once per call index x errno in "
         "{ENOSPC, EACCES, EIO, ENOENT}, and once per cut index x truncation class (empty / 1 byte / half); the same "
         "for ShardedFileAccessor store_file / fetch_file / file_exists; HTTP: every request index of plain and "
-        "sharded fetches x {404, 500, 503, dropped connection, short / over-long / ignored range}. "
+        "sharded fetches x {404, 500, 503, dropped connection, connection lost in the middle of the body, damaged "
+        "Content-Encoding: gzip stream, short / over-long / ignored range}. "
         "non-trivial = a run in which the fault or cut actually fired")
 
 ERRNOS = ["ENOSPC", "EACCES", "EIO", "ENOENT"]
@@ -323,7 +324,8 @@ def http_part(R, quick):
     from neuroglancer_scripts.sharded_file_accessor import ShardedFileAccessor
     rng = R.rng
     known = {f["id"] for f in R.findings}
-    behs = [("status", 500), ("status", 404), ("status", 503), "drop", "short", "long", "ignore-range"]
+    behs = [("status", 500), ("status", 404), ("status", 503), "drop", "cut-body", "cut-chunked", "bad-gzip",
+            "short", "long", "ignore-range"]
     reqs, pend = [], []
     # plain
     root = os.path.join(R.tmp, "hp")
@@ -335,7 +337,7 @@ def http_part(R, quick):
         sc = [b(s.url), b(root), not D["cfg"][0], True]
         acc = accessor.get_accessor_for_url(s.url + "/ds/")
         k, co = D["chunks"][0]
-        for beh in behs[:4]:
+        for beh in behs[:7]:
             site.reset([beh])
             out = h14.run_impl(lambda: acc.fetch_chunk(k, tuple(co)))
             case = {"accessor": "http", "fetch": [k, co], "behaviour": str(beh)}
@@ -522,6 +524,87 @@ def fsize_sweep_part(R, quick):
                    "exercises real short/failing writes of the OS, which the primitive-level model cannot exhibit")
 
 
+def _child_spool(base, tmpdir, payloads, victim, q):
+    """Forked child: store chunks with the default (on-disk) buffering, remove the victim-th spool file
+    of the writer from the temporary directory, then close()."""
+    import tempfile
+    tempfile.tempdir = tmpdir
+    try:
+        from neuroglancer_scripts.sharded_file_accessor import ShardedFileAccessor
+        acc = ShardedFileAccessor(base)
+        for coords, buf in payloads:
+            acc.store_chunk(buf, "s0", coords)
+        spools = []
+        for root, _d, files in os.walk(tmpdir):
+            for f in files:
+                spools.append(os.path.join(root, f))
+        spools.sort()
+        if spools:
+            os.unlink(spools[victim % len(spools)])
+        acc.close()
+        q.send("ok" if spools else "no-spool")
+    except BaseException as e:  # noqa: BLE001
+        q.send(type(e).__name__)
+    finally:
+        q.close()
+        os._exit(0)
+
+
+def spool_vanish_part(R, quick):
+    """A temporary file of the on-disk write buffer disappears between the last store and close()
+    (a tmp cleaner, an interrupted earlier run): close() must fail with an I/O error or have written a
+    correct dataset - never report success over a damaged shard."""
+    import json
+    import multiprocessing as mp
+    from neuroglancer_scripts import accessor
+    rng = R.rng
+    ctx = mp.get_context("fork")
+    cs = 4
+    grid = (2, 2, 2)
+    for victim in range(4 if quick else 16):
+        payloads = []
+        for x in range(grid[0]):
+            for y in range(grid[1]):
+                for z in range(grid[2]):
+                    payloads.append(((x * cs, x * cs + cs, y * cs, y * cs + cs, z * cs, z * cs + cs),
+                                     bytes(rng.randrange(256) for _ in range(rng.randrange(10, 40)))))
+        rng.shuffle(payloads)
+        info = {"type": "image", "data_type": "uint8", "num_channels": 1,
+                "scales": [{"key": "s0", "size": [g * cs for g in grid], "chunk_sizes": [[cs] * 3],
+                            "encoding": "raw", "resolution": [1, 1, 1], "voxel_offset": [0, 0, 0],
+                            "sharding": {"@type": "neuroglancer_uint64_sharded_v1", "minishard_bits": 1,
+                                         "shard_bits": 1, "preshift_bits": 0, "hash": "identity",
+                                         "minishard_index_encoding": "raw", "data_encoding": "raw"}}]}
+        base = os.path.join(R.tmp, f"spool-{victim}", "a", "b", "ds")
+        tmpd = os.path.join(R.tmp, f"spool-{victim}", "tmp")
+        os.makedirs(base)
+        os.makedirs(tmpd)
+        with open(os.path.join(base, "info"), "w") as f:
+            f.write(json.dumps(info))
+        a, b = ctx.Pipe()
+        pr = ctx.Process(target=_child_spool, args=(base, tmpd, payloads, victim, b))
+        pr.start()
+        b.close()
+        res = a.recv() if a.poll(60) else "hang"
+        pr.join(10)
+        case = {"spool_file_removed_before_close": victim, "chunks": len(payloads)}
+        R.case(case, nontrivial=True)
+        R.count(f"spool-vanish:{'ok' if res == 'ok' else res}")
+        if res == "ok":
+            try:
+                rd = accessor.get_accessor_for_url(base)
+                for coords, buf in payloads:
+                    if rd.fetch_chunk("s0", coords) != buf:
+                        R.violation("close() reported success after a write-buffer file vanished, but a chunk "
+                                    "reads back wrong", case, {"coords": list(coords)})
+                        break
+            except Exception as e:  # noqa: BLE001
+                R.violation("close() reported success after a write-buffer file vanished, but the shard cannot "
+                            "be read back", case, {"exc": f"{type(e).__name__}: {e}"[:200]})
+        elif res not in ("OSError", "FileNotFoundError", "ShardedIOError", "DataAccessError", "no-spool"):
+            R.violation("a vanished write-buffer file surfaced as an unrelated exception", case, {"exception": res})
+
+
 def run(R):
     R.rule = RULE
     quick = R.tier == "quick"
@@ -534,6 +617,7 @@ def run(R):
     sharded_file_part(R, quick)
     http_part(R, quick)
     fsize_sweep_part(R, quick)
+    spool_vanish_part(R, quick)
 
 
 def replay(R, payload):
